@@ -25,6 +25,14 @@ Verdict(o) ==
                 IF Len(sel) = 0 THEN (IF out.kind = "none" THEN "" ELSE "one_or_none_empty")
                 ELSE IF Len(sel) = 1 THEN (IF out.kind = "row" /\ out.row = sel[1] THEN "" ELSE "one_or_none_single")
                 ELSE IF out.kind = "exc" /\ out.cls = "ValueError" THEN "" ELSE "one_or_none_multiple"
+           [] o.op = "one2" ->         \* d.one_or_none(cond, exc = <column conditions or nothing>, find = <column or nothing>)
+                LET sel0 == Inc(t, cond)
+                    sel == (IF o.excl.kind = "none" THEN sel0 ELSE Exc(sel0, o.excl)).rows IN
+                IF Len(sel) = 0 THEN (IF out.kind = "none" THEN "" ELSE "one_or_none_empty")
+                ELSE IF Len(sel) > 1 THEN (IF out.kind = "exc" /\ out.cls = "ValueError" THEN "" ELSE "one_or_none_multiple")
+                ELSE IF o.find = "" THEN (IF out.kind = "row" /\ out.row = sel[1] THEN "" ELSE "one_or_none_single")
+                ELSE IF (out.kind = "val" /\ out.v = sel[1][o.find]) \/ (out.kind = "none" /\ IsNone(sel[1][o.find])) THEN ""   \* a found None is indistinguishable from "no row"
+                ELSE "one_or_none_find"
            [] OTHER -> "unknown_op"
 
 Init == BatchInit
